@@ -626,11 +626,87 @@ fn shrink_history(history: &[Ev], sig: &'static str) -> Vec<Ev> {
     shrink(&cur, |cand| fails_with(cand, sig))
 }
 
+// ------------------------------------------------------------------------------------------------
+// Driver 3 (life cycle): one history delivered in LEGS, each by a FRESH `OrderBookL2Manager` over the SAME shared books
+// (a consumer restarts its manager after the stream ended; one leg is empty). The book must equal the map of the WHOLE
+// history after every leg, and a book that no event names must keep what it held before the first manager started.
+
+fn run_manager_legs(history: &[Ev], stats: &mut Stats) -> Result<(), Fail> {
+    let rt = tokio::runtime::Builder::new_current_thread().enable_time().build().expect("tokio runtime");
+    let multi = history.len() % 2 == 0;
+    let book = Arc::new(RwLock::new(OrderBook::default()));
+    let bystander = Arc::new(RwLock::new(OrderBook::default()));
+    let by_ev = Ev { snapshot: true, sequence: 7, time_ms: Some(5), bids: vec![(d("10"), d("1")), (d("9"), d("1"))], asks: vec![(d("11"), d("2"))] };
+    let mut by_model = Model::default();
+    by_model.apply(&by_ev, &by_ev.bids, &by_ev.asks, stats);
+    bystander.write().update(build(&by_ev));
+    let want_by = RefState::of_model(&by_model);
+    let mut model = Model::default();
+    let (a, b) = (history.len() / 3, 2 * history.len() / 3);
+    for (leg, range) in [0..a, a..a, a..b, b..history.len()].into_iter().enumerate() {
+        let (tx, rx) = tokio::sync::mpsc::unbounded_channel::<MarketStreamEvent<u32, OrderBookEvent>>();
+        for ev in &history[range.clone()] {
+            model.apply(ev, &ev.bids, &ev.asks, stats);
+            let _ = tx.send(MarketStreamEvent::Item(MarketEvent {
+                time_exchange: ev_time(ev).unwrap_or_else(|| t(0)),
+                time_received: t(0),
+                exchange: ExchangeId::BinanceSpot,
+                instrument: 1u32,
+                kind: build(ev),
+            }));
+        }
+        drop(tx);
+        let stream = UnboundedReceiverStream::new(rx);
+        let ran = if multi {
+            let map: FnvHashMap<u32, Arc<RwLock<OrderBook>>> = [(1u32, book.clone()), (2u32, bystander.clone())].into_iter().collect();
+            catch(|| rt.block_on(OrderBookL2Manager { stream, books: OrderBookMapMulti::new(map) }.run()))
+        } else {
+            catch(|| rt.block_on(OrderBookL2Manager { stream, books: OrderBookMapSingle::new(1u32, book.clone()) }.run()))
+        };
+        if let Err(msg) = ran {
+            return fail("panic_in_order_book_manager", format!("manager of leg {leg} (events {range:?}) panicked: {msg}"));
+        }
+        stats.checks += 1;
+        stats.cover(if range.is_empty() { "manager_restart:leg_without_events" } else if leg == 0 { "manager_restart:first_leg" } else { "manager_restart:leg_over_a_populated_book" });
+        let want = RefState::of_model(&model);
+        let got = book.read().clone();
+        if !want.matches(&got) {
+            return fail(
+                "book_differs_from_map_after_manager_restart",
+                format!("after leg {leg} (events {range:?} of {}, each leg by a fresh manager over the same book): expected {}; observed {}", history.len(), want.show(), show_book(&got)),
+            );
+        }
+        if multi {
+            stats.checks += 1;
+            stats.cover("manager_restart:multi_map_with_a_book_no_event_names");
+            let got = bystander.read().clone();
+            if !want_by.matches(&got) {
+                return fail(
+                    "manager_changed_a_book_no_event_named",
+                    format!("after leg {leg}: the second book of the map held {} before the first manager started and no event named it; observed {}", want_by.show(), show_book(&got)),
+                );
+            }
+        } else {
+            stats.cover("manager_restart:single_map");
+        }
+    }
+    Ok(())
+}
+
 fn execute_seq(history: &[Ev], report: &mut Report, label: &str, shrunk_so_far: &mut HashMap<&'static str, u32>) {
     let mut stats = Stats::default();
     let res = run_seq(history, &mut stats);
     let nontrivial = history.len() >= 3 && stats.op_kinds.iter().filter(|b| **b).count() >= 2;
+    // driver 3 on a share of the random histories (and on every replayed one)
+    let legs = if history.len() >= 4 && res.is_ok() && (label == "replay" || (label == "random" && fnv1a(format!("{history:?}").as_bytes()) % 8 == 3)) {
+        run_manager_legs(history, &mut stats)
+    } else {
+        Ok(())
+    };
     stats.flush(report);
+    if let Err(f) = legs {
+        report.violation(f.sig, f.detail, Value::Array(history.iter().map(ev_json).collect()));
+    }
     report.cover(&format!("driver:sequential:{label}"));
     report.case(fnv1a(format!("{history:?}").as_bytes()), nontrivial);
     if nontrivial && history.len() >= 6 && label == "random" {
@@ -1406,6 +1482,11 @@ fn main() {
             "manager:event_sequence_lower_than_the_books",
             "reader:observed_intermediate_prefix",
             "reader:observed_final_book",
+            "manager_restart:first_leg",
+            "manager_restart:leg_without_events",
+            "manager_restart:leg_over_a_populated_book",
+            "manager_restart:multi_map_with_a_book_no_event_names",
+            "manager_restart:single_map",
         ] {
             report.require(cell);
         }
